@@ -4,7 +4,7 @@
    of the current header; proofs: Proofs/SelectProofs.v.  (Bit-identical outputs across variants
    are established by the all-variants correspondence of checks C01-C03/C08, not by a theorem.) *)
 From Coq Require Import ZArith Bool.
-From IMB Require Import Gen.GenConsts Mgr.Select Proofs.SelectProofs.
+From IMB Require Import Gen.GenConsts Mgr.Select Proofs.SelectProofs Gen.GenIsa Proofs.IsaProofs.
 Local Open Scope Z_scope.
 
 Theorem select_total_and_supported :
@@ -41,3 +41,25 @@ Print Assumptions flags_only_lower.
 Theorem alloc_is_consistent : forall detect flags, consistent detect (alloc detect flags).
 Proof. exact alloc_consistent. Qed.
 Print Assumptions alloc_is_consistent.
+
+(* "... instead of executing unsupported instructions": Gen/GenIsa.v is regenerated on every run from the rebuilt shared
+   object (translators/t3_isa.py): isa_uses v = the IMB_FEATURE_* bits of every instruction-set extension used by code
+   reachable from init_mb_mgr_<v>_internal (handlers, callees, dispatch tables; guarded dispatchers as documented in the
+   translator).  Complete finite domain (nine variants). *)
+Theorem installed_code_within_required_features : forall v, has (required v) (isa_uses v) = true.
+Proof. exact isa_within_required. Qed.
+Print Assumptions installed_code_within_required_features.
+
+(* whenever a selector installs a variant, every extension its code can execute is present in the manager's feature word
+   AND in the CPUID oracle [detect] (the SHANI/GFNI-off flags only remove bits) *)
+Theorem selected_variant_executes_only_supported_extensions :
+  forall (t3 t4 : bool) (detect : Z) (init : mgr -> mgr) (base : Z),
+  (init = init_sse_internal detect /\ base = IMB_CPUFLAGS_SSE) \/
+  (init = init_avx2_internal t3 t4 detect /\ base = IMB_CPUFLAGS_AVX2) \/
+  (init = init_avx512_internal detect /\ base = IMB_CPUFLAGS_AVX512) ->
+  forall s, consistent detect s ->
+  (has (m_features s) base = false /\ init s = fail_missing s) \/
+  (exists v, m_variant (init s) = Some v /\ m_errno (init s) = 0 /\
+             has (m_features (init s)) (isa_uses v) = true /\ has detect (isa_uses v) = true).
+Proof. exact isa_supported_when_selected. Qed.
+Print Assumptions selected_variant_executes_only_supported_extensions.
